@@ -230,6 +230,24 @@ theorem hHeadersTrack_framed (e : Env) (s : State) (L : Nat) (inp : Bytes) :
     · exact Frame.refl s
     · exact trackLoop_framed _ _ _ _ _ _
 
+theorem txs_frame (s : State) (l : List TxEntry) : Frame s { s with txs := l } :=
+  ⟨fun _ => ⟨rfl, rfl⟩, rfl, rfl, rfl, rfl, rfl, id, id, fun _ _ => rfl⟩
+
+theorem txAnnounce_frame (s : State) (h : Bytes) : Frame s (txAnnounce s h).1 := by
+  unfold txAnnounce
+  split
+  · exact txs_frame s _
+  · split
+    · exact Frame.refl s
+    · split <;> exact txs_frame s _
+
+theorem txDeliver_frame (s : State) (h : Bytes) : Frame s (txDeliver s h) := by
+  unfold txDeliver
+  split <;> exact txs_frame s _
+
+theorem txPoll_frame (s : State) : Frame s (txPoll s).1 := by
+  unfold txPoll; exact txs_frame s _
+
 theorem invLoop_framed (s : State) (k : Nat) (b : Bytes) (used : Nat) (fx : List Effect) (pending : Nat) :
     ∀ s0, Frame s0 s → Frame s0 (invLoop s k b used fx pending).st := by
   induction k generalizing s b used fx pending with
@@ -243,11 +261,10 @@ theorem invLoop_framed (s : State) (k : Nat) (b : Bytes) (used : Nat) (fx : List
     · simp only []
       split
       · exact ih _ _ _ _ _ s0 h
-      · split
-        · exact ih _ _ _ _ _ s0 h
-        · have h' : ∀ x : Bytes, Frame s0 { s with txSeen := x :: s.txSeen } := fun _ =>
-            Frame.trans h ⟨fun _ => ⟨rfl, rfl⟩, rfl, rfl, rfl, rfl, rfl, id, id, fun _ _ => rfl⟩
-          split
+      · have h' := fun x => Frame.trans h (txAnnounce_frame s x)
+        split
+        · exact ih _ _ _ _ _ s0 (h' _)
+        · split
           · exact ih _ _ _ _ _ s0 (h' _)
           · exact ih _ _ _ _ _ s0 (h' _)
 
@@ -268,7 +285,7 @@ theorem hTx_framed (e : Env) (s : State) (L : Nat) (c : Bool) (ck inp : Bytes) :
     split
     · exact Frame.refl s
     · exact Frame.refl s
-    · exact ⟨fun _ => ⟨rfl, rfl⟩, rfl, rfl, rfl, rfl, rfl, id, id, fun _ _ => rfl⟩
+    · exact txDeliver_frame s _
 
 theorem lookupCmd_filter_ne (t : Table) (c : String) (cmd : Bytes) (hne : ascii c ≠ cmd) :
     lookupCmd (t.filter (fun en => en.1 != c)) cmd = lookupCmd t cmd := by
